@@ -49,7 +49,7 @@ async fn one_case(log: &Log, r: &mut Rng, c: &Value, http: &str, shard: u8, k: u
     let method = if connect { "CONNECT".to_string() } else { (*r.pick(&["GET", "POST", "PUT", "DELETE", "OPTIONS", "HEAD"])).to_string() };
     let version = (*r.pick(&["HTTP/1.1", "HTTP/1.1", "HTTP/1.0"])).to_string();
     // paths with every character that means something elsewhere in a URI
-    let path = (*r.pick(&["/", "/index.html", "/a/b/c?x=1&y=2", "/p%20q", "/@scope/pkg", "/x?next=@other:8080/", "/a:b/c:443", "//double//slash",
+    let path = (*r.pick(&["/API/v1/Users?Name=Bob&Sort=ASC", "/CamelCase/Path.HTML", "/", "/index.html", "/a/b/c?x=1&y=2", "/p%20q", "/@scope/pkg", "/x?next=@other:8080/", "/a:b/c:443", "//double//slash",
                           "/q?u=http://example.com:81/z", "/p;v=1,2", "/brackets[1]", "/hash%23frag", "/very/long/path/aaaaaaaaaaaaaaaaaaaaaaaaaaaaaaaaaaaaaaaaaaaaaaaaaaaaaaaaaaaaaaaaaaaaaaaaaaaaaaaaaaaaaaaaaaaaaaaaaaaaaaaaaaaaaaaaaaaaaaaaaaaaaa?k=v"])).to_string();
     let target = if connect { auth_a.clone() } else if form == "abs-http" { format!("http://{}{}", auth_a, path) } else if form == "abs-https" { format!("https://{}{}", auth_a, path) } else { path.clone() };
     let hspell = s("hspell");
@@ -69,9 +69,31 @@ async fn one_case(log: &Log, r: &mut Rng, c: &Value, http: &str, shard: u8, k: u
     }
     // Host header position: first, middle or last
     let pos = r.below(extra.len() as u64 + 1) as usize;
-    for (i, e) in extra.iter().enumerate() { if i == pos { if let Some(h) = &hdr_auth { lines.push(format!("{}: {}", hspell, h)); } } lines.push(e.clone()); }
-    if pos >= extra.len() { if let Some(h) = &hdr_auth { lines.push(format!("{}: {}", hspell, h)); } }
-    let head = format!("{} {} {}\r\n{}\r\n", method, target, version, lines.iter().map(|l| format!("{}\r\n", l)).collect::<String>());
+    let assemble = |extra: &Vec<String>| -> (Vec<String>, String) {
+        let mut lines: Vec<String> = Vec::new();
+        for (i, e) in extra.iter().enumerate() { if i == pos { if let Some(h) = &hdr_auth { lines.push(format!("{}: {}", hspell, h)); } } lines.push(e.clone()); }
+        if pos >= extra.len() { if let Some(h) = &hdr_auth { lines.push(format!("{}: {}", hspell, h)); } }
+        let head = format!("{} {} {}\r\n{}\r\n", method, target, version, lines.iter().map(|l| format!("{}\r\n", l)).collect::<String>());
+        (lines, head)
+    };
+    // the largest header blocks the proxy accepts: exactly at and just below its 64 KiB cap (so that the
+    // forwarded request reaches or, with an added Host line, passes 65535 bytes)
+    if n("extra") > 0 && s("reach") == "yes" && n("early") == 0 && r.chance(1, 5) {
+        extra.retain(|e| !e.starts_with("X-Fill-"));
+        let (_, h0) = assemble(&extra);
+        let want = 65536usize - *r.pick(&[0usize, 0, 1, 2, 7, 20, 40]);
+        let mut left = want.saturating_sub(h0.len());
+        let mut j = 0;
+        while left >= 16 {
+            let name = format!("X-Fill-{}: ", j);
+            let line_max = 4000 + name.len() + 2;
+            let take = if left >= line_max + 16 { line_max } else { left };
+            extra.push(format!("{}{}", name, "f".repeat(take - name.len() - 2)));
+            left -= take; j += 1;
+        }
+    }
+    let (built, head) = assemble(&extra);
+    lines = built;
     let early: Vec<u8> = (0..n("early")).map(|i| b'A' + (i as u8 % 26)).collect();
     let dials0 = DIALS.lock().unwrap().len();
     // --- talk to the proxy --------------------------------------------------------------------
